@@ -105,7 +105,7 @@ type vsSched struct {
 
 func vsNewSched() *vsSched {
 	return &vsSched{byGid: map[int64]*vsActor{}, evt: make(chan *vsActor, 64), maxSteps: 3000,
-		siteHits: map[string]int{}, watchdog: 5 * time.Second}
+		siteHits: map[string]int{}, watchdog: 60 * time.Second}
 }
 
 func vsGid() int64 {
